@@ -62,4 +62,7 @@ M = [
  ("c06-main-first-reference", ["C06"], J+"main.rs", "                        let mut reference = references[&serial];\n\n                        decode_position(\n                            &mut adsb.message,", "                        let mut reference = references.values().next().copied().unwrap_or(references[&serial]);\n\n                        decode_position(\n                            &mut adsb.message,"),
  # ---- C16 end to end: the serial the application reports
  ("c16-main-serial-name", ["C16"], J+"sensor.rs", "                serial: value.serial(),\n                name: value.name.clone(),", "                serial: value.serial() ^ value.reference.is_some() as u64,\n                name: value.name.clone(),"),
+ # ---- C06 end to end: the sensor's clock instead of the arrival clock
+ ("c06-main-sensor-clock", ["C06"], J+"main.rs", "                        decode_position(\n                            &mut adsb.message,\n                            msg.timestamp,", "                        decode_position(\n                            &mut adsb.message,\n                            msg.metadata.first().and_then(|m| m.gnss_timestamp).unwrap_or(msg.timestamp),"),
+ ("c06-main-update-noalt", ["C06"], J+"main.rs", "pos.alt.is_some_and(|alt| alt < 5000)", "pos.alt.unwrap_or_default() < 5000"),
 ]
